@@ -416,7 +416,7 @@ theorem byte32ToString_no_trailing_zero (bs : List Nat) : (byte32ToString bs).ge
   | nil => simp
   | cons x xs =>
     have := List.head_dropWhile_not (p := (· == 0)) (l := bs.reverse) (by rw [h]; simp)
-    simp only [h, List.head_cons, beq_iff_eq, Bool.not_eq_true, beq_eq_false_iff_ne, ne_eq] at this
+    simp only [h, List.head_cons, beq_eq_false_iff_ne, ne_eq] at this
     simpa using this
 
 end Wiring
